@@ -13,6 +13,7 @@ import (
 	"verif/internal/evid"
 	"verif/internal/gen"
 	"verif/internal/lin"
+	"verif/internal/ostatic"
 	"verif/internal/rt"
 	"verif/internal/runner"
 )
@@ -196,6 +197,9 @@ func runRuntime(prop, tier string) int {
 		}
 		os.RemoveAll(bw)
 	}
+	if prop == "C08" {
+		staticResetAPI(run, mq, work, seed, tier)
+	}
 	agg.mu.Lock()
 	for k, v := range agg.stats {
 		run.Set(k, int(v))
@@ -372,4 +376,92 @@ func runDFSMode(run *evid.Run, prop string, b *rt.Batch, agg *rtAgg, shapes map[
 	}
 	run.Add("dfs_programs_total", total)
 	run.Add("dfs_programs_fully_enumerated", exhausted)
+}
+
+// staticResetAPI checks the presence/absence of the reset API on the emitted text of multi-interface requests
+// (the runtime batches generate one mock per invocation, so state shared between the mocks of one run would
+// otherwise never be exercised for C08).
+func staticResetAPI(run *evid.Run, mq *runner.Moq, work string, seed int64, tier string) {
+	ntrees := 3
+	if tier == "thorough" {
+		ntrees = 40
+	}
+	hz := currentHazards()
+	var jobs []job
+	for i := 0; i < ntrees; i++ {
+		t := gen.NewTree(seed*100151+int64(i), gen.Profiles[i%len(gen.Profiles)], hz)
+		ld, err := prepTree(filepath.Join(work, "c08static"), t, i)
+		if err != nil {
+			run.Inconc("generated tree does not load")
+			continue
+		}
+		rng := rand.New(rand.NewSource(seed*29 + int64(i)))
+		o := gen.DefaultCaseOpts
+		o.PerIface, o.Multi, o.SameName = 0, 6, hz.SamePkgName
+		for k, c := range gen.Cases(t, rng, o) {
+			c.WithResets = k%4 != 3 // mostly with the flag, sometimes without
+			jobs = append(jobs, job{c: c, lt: ld.lt, dir: ld.dir})
+		}
+	}
+	// library use: one Mocker asked for the same mocks twice (a second destination, a retry): the second answer
+	// must carry the reset API as well. Only the reset API is asserted on it - a re-used Mocker keeps its import
+	// and naming state, so its second answer need not be byte-identical to the first.
+	var ljobs []libJob
+	var lidx []int
+	for i, j := range jobs {
+		if len(ljobs) >= 12 || !j.c.WithResets {
+			continue
+		}
+		var names []string
+		for k, ifc := range j.c.Ifaces {
+			names = append(names, ifc.Name+":"+j.c.MockName(k))
+		}
+		ljobs = append(ljobs, libJob{Dir: "/", SrcDir: filepath.Join(j.dir, j.c.Tree.SrcDir), PkgName: j.c.PkgName, Fmt: j.c.Fmt, Stub: j.c.Stub, Skip: j.c.SkipEnsure, Resets: true, Names: names, Repeat: 1, WantReuse: true})
+		lidx = append(lidx, i)
+	}
+	if res, err := runLibDriver(work, "c08reuse.json", ljobs); err == nil {
+		for k, r := range res {
+			j := jobs[lidx[k]]
+			if len(r.Errs) == 0 || r.Errs[0] != "" || r.ReuseErr != "" || r.Reuse == "" {
+				continue
+			}
+			chk := ostatic.CheckOutput(j.lt, j.c.Tree.SrcPath, j.c.Dest, j.c.PkgName, []byte(r.Reuse))
+			fs, _ := ostatic.Analyse(chk, requestOf(j.c, j.lt))
+			run.Eval("second-answer|" + j.c.Key())
+			run.Add("second_answers_of_one_mocker_checked", 1)
+			var msgs []string
+			for _, f := range fs {
+				if f.Prop == "C08" {
+					msgs = append(msgs, f.Msg)
+				}
+			}
+			if len(msgs) > 0 {
+				run.Violation(fmt.Sprintf("seed=%d argv=%v :: second answer of one Mocker (library use): %s", j.c.Tree.Seed, j.c.Args(), strings.Join(dedupe(msgs), " | ")), map[string]string{"second_answer.go.txt": r.Reuse})
+			}
+		}
+	} else if len(ljobs) > 0 {
+		run.Inconc("library driver: " + err.Error())
+	}
+	runner.Parallel(len(jobs), 16, func(i int) {
+		j := jobs[i]
+		findings, facts, res, verdict := evalCase(mq, j, "C08")
+		if verdict != "ok" {
+			return
+		}
+		key := ""
+		if facts.Methods > 0 {
+			key = "joint-request|" + j.c.Key()
+		}
+		run.Eval(key)
+		run.Add("joint_requests_checked_for_reset_api", 1)
+		var msgs []string
+		for _, f := range findings {
+			if f.Prop == "C08" {
+				msgs = append(msgs, f.Msg)
+			}
+		}
+		if len(msgs) > 0 {
+			run.Violation(fmt.Sprintf("seed=%d profile=%s argv=%v :: %s", j.c.Tree.Seed, j.c.Tree.Profile, j.c.Args(), strings.Join(dedupe(msgs), " | ")), replayFiles(j.c, res, findings))
+		}
+	})
 }
